@@ -611,6 +611,10 @@ func (c *fnCtx) finish() {
 			postClauses = append(postClauses, e)
 		}
 	}
+	// frame: everything outside the modifies clause is unchanged at objects that existed on entry
+	if c.con.HasMod && !c.con.ModAll {
+		c.frameObligations(normal)
+	}
 	// replay formulas: the clause over the parameter constants and fresh result constants
 	for i, o := range posts {
 		n0 := c.sb.Len()
@@ -776,4 +780,88 @@ func isConstLike(v ssa.Value) bool {
 		return true
 	}
 	return false
+}
+
+
+// frameObligations checks the body against its modifies clause: for every heap
+// component the function (or a callee) may have written, every location that
+// existed on entry and is not named by the clause holds its entry value.
+func (c *fnCtx) frameObligations(normal []retSite) {
+	ci := calleeInfo{key: c.g.funcKey[c.fn], fn: c.fn, con: c.con, sig: c.fn.Signature}
+	for _, p := range c.fn.Params {
+		ci.names = append(ci.names, p.Name())
+		ci.ptypes = append(ci.ptypes, p.Type())
+	}
+	whole := map[string]bool{}
+	precise := map[string][]string{} // comp -> refs
+	env := c.newEnv(c.entry, c.entry)
+	for _, m := range c.con.Modifies {
+		if strings.HasPrefix(m, "g_") {
+			continue
+		}
+		done := false
+		if strings.HasPrefix(m, "*") {
+			if root, ok := c.paramVals[m[1:]]; ok && root.K == KRef {
+				if pt, ok := root.T.Underlying().(*types.Pointer); ok {
+					for _, l := range c.leafLocs(root.S, pt.Elem()) {
+						precise[l.comp] = append(precise[l.comp], l.ref)
+					}
+					done = true
+				}
+			}
+		} else if !strings.HasSuffix(m, "[*]") && !strings.HasPrefix(m, "$mem:") {
+			parts := strings.Split(m, ".")
+			if root, ok := c.paramVals[parts[0]]; ok && len(parts) >= 2 {
+				if locs, ok := env.selectorLocs(root, parts[1:]); ok {
+					for _, l := range locs {
+						precise[l.comp] = append(precise[l.comp], l.ref)
+					}
+					done = true
+				}
+			}
+		}
+		if !done {
+			for _, comp := range c.modItemComps(ci, m) {
+				whole[comp] = true
+			}
+		}
+	}
+	var comps []string
+	for k := range c.comps {
+		if !whole[k] {
+			comps = append(comps, k)
+		}
+	}
+	sort.Strings(comps)
+	if len(comps) == 0 {
+		return
+	}
+	type sk struct{ comp, x string }
+	var sks []sk
+	for _, k := range comps {
+		x := c.fresh("fx")
+		c.declare(x, "Ref")
+		sks = append(sks, sk{k, x})
+	}
+	for _, r := range normal {
+		var goals []string
+		for _, s := range sks {
+			srt := c.compSort(s.comp)
+			h0 := c.comp(c.entry, s.comp, srt)
+			h1 := c.comp(r.st, s.comp, srt)
+			if h0 == h1 {
+				continue
+			}
+			pre := []string{app("<=", app("rootid", s.x), "top!0")}
+			for _, ref := range precise[s.comp] {
+				pre = append(pre, sNot(sEq(s.x, ref)))
+			}
+			goals = append(goals, sImp(sAnd(pre...), sEq(app("select", h1, s.x), app("select", h0, s.x))))
+		}
+		if len(goals) == 0 {
+			continue
+		}
+		st := r.st.clone()
+		c.oblige(st, "frame", sAnd(goals...), "modifies "+strings.Join(c.con.Modifies, ", ")+" (everything else unchanged)", c.propsFor(nil), r.pos)
+	}
 }
